@@ -277,8 +277,8 @@ class World:
             row = t.row(day)
             leap = t.tai_utc(mjd_float) if t.leaps else None
             if row is not None and leap is not None:
-                return ("tab", row["ut1_utc"], leap)
-            return "fallback"
+                return [("tab", u, leap) for u in sorted(row["ut1_utc_either"])]
+            return ["fallback"]
 
         if db == "flaky" and day in set(self.life["flaky_days"]):
             self.ctx.probe("flaky_day_hit")
@@ -286,17 +286,17 @@ class World:
         if self.access_fault:
             out.add("fallback")
             if healed:
-                out.add(from_tables(self.intact))
+                out.update(from_tables(self.intact))
             return out
         if self.text_fault:
             if day in self.skip_days or "all" in self.skip_days:
                 return {"any"}
-            out.add(from_tables(tables))
+            out.update(from_tables(tables))
             out.add("fallback")
             if healed:
-                out.add(from_tables(self.intact))
+                out.update(from_tables(self.intact))
             return out
-        return {from_tables(tables)}
+        return set(from_tables(tables))
 
     def judge_lookup(self, fn, mjd_float, what, from_result=False):
         """Run fn() (which performs exactly one Date construction = one EOP lookup at mjd_float) and judge the outcome.
@@ -505,7 +505,7 @@ class World:
                         for dd in (-1, 0, 1):
                             row = self.tables.row(utc_reading // ts.US_DAY + dd) if (min(utc_reading % ts.US_DAY, ts.US_DAY - utc_reading % ts.US_DAY) < 75 * 10**6 or dd == 0) else None
                             if row:
-                                cands.add(row["ut1_utc"])
+                                cands.update(row["ut1_utc_either"])
                     if min(abs(obs - c) for c in cands) > 2.1e-6:
                         ctx.violate("offsets", {"kind": "wrong_ut1_utc", "cls": cls}, f"{where}: UT1-UTC observed {obs:.7f} s, tabulated {sorted(cands)}")
                 if S in EXACT and X == "TDB":
